@@ -784,6 +784,23 @@ impl Run {
                 Err(e) => fails.push(("C14".into(), "all-delegations-query-failed".into(), e)),
             }
         }
+        // AllValidators lists exactly the validators of the chain, each answering the single Validator query, too
+        {
+            let all: Result<cosmwasm_std::AllValidatorsResponse, _> = self.inst.app.wrap().query(&QueryRequest::Staking(StakingQuery::AllValidators {}));
+            rep.bump("stk/all_validators_checked");
+            match all {
+                Ok(r) => {
+                    let mut got: Vec<String> = r.validators.iter().map(|v| v.address.clone()).collect();
+                    got.sort();
+                    let mut want = vals.clone();
+                    want.sort();
+                    if got != want {
+                        fails.push(("C10".into(), "staking-queries-disagree-with-each-other".into(), format!("{:?}: AllValidators lists {} validators, the chain has {}", op, got.len(), want.len())));
+                    }
+                }
+                Err(e) => fails.push(("C10".into(), "all-validators-query-failed".into(), e.to_string())),
+            }
+        }
         // bank: raw ledger == model ledger
         match rawstate::bank_ledger(&raw_after) {
             Ok(ledger) => {
@@ -1277,6 +1294,26 @@ pub fn templates() -> Vec<(String, Case)> {
                     ops.push(adv(3600));
                     ops
                 },
+            },
+        ),
+        (
+            // well over a hundred validators: delegations to the first, middle and last ones are listed by every query
+            "many-validators".into(),
+            Case {
+                params: Params { commissions: (0..130).map(|i| ["0.1", "0", "0.5"][i % 3].to_string()).collect(), ..p.clone() },
+                ops: vec![
+                    SOp::Delegate { d: 0, v: "validator0".into(), amount: 100, denom: t.clone() },
+                    SOp::Delegate { d: 0, v: "validator64".into(), amount: 200, denom: t.clone() },
+                    SOp::Delegate { d: 0, v: "validator100".into(), amount: 300, denom: t.clone() },
+                    SOp::Delegate { d: 1, v: "validator129".into(), amount: 400, denom: t.clone() },
+                    SOp::Delegate { d: 2, v: "validator101".into(), amount: 500, denom: t.clone() },
+                    adv(86400),
+                    SOp::Withdraw { d: 1, v: "validator129".into() },
+                    SOp::Redelegate { d: 0, src: "validator100".into(), dst: "validator128".into(), amount: 150, denom: t.clone() },
+                    SOp::Undelegate { d: 2, v: "validator101".into(), amount: 500, denom: t.clone() },
+                    SOp::Slash { v: "validator128".into(), p: "0.5".into() },
+                    adv(61),
+                ],
             },
         ),
         (
